@@ -12,7 +12,7 @@
    XOR, password / alias handling. *)
 From Coq Require Import List NArith Bool Arith.
 From Verif Require Import Outcome Cmp Sha3.
-From C28 Require Import Model.
+From C28 Require Import Model Store.
 Import ListNotations.
 Open Scope N_scope.
 
@@ -131,6 +131,11 @@ Section RUN.
   Definition run_ks (raw alias pw salt iv : bytes) (ops : list ksop) : list bytes :=
     let f := encrypt_key kdf_t ctr_t sha256_t (firstn 32 raw, skipn 32 raw) alias pw salt iv in
     kf_ct f :: kf_mac f :: map run_op ops.
+
+  (* the key store as a whole (C28/Store.v): a sequence of operations over several stores, all
+     empty at the start; one observation per operation *)
+  Definition run_store (ops : list sop) : list bytes :=
+    snd (run Gt smul_t encode_t kdf_t ctr_t sha256_t [] ops).
 End RUN.
 
 Definition obs_eqb : list bytes -> list bytes -> bool := list_eqb bytes_eqb.
